@@ -280,6 +280,39 @@ fn scenario_f(expected: Option<u64>) {
     }
 }
 
+/// G: cold start with DIFFERENT utterances per thread: four threads behind a barrier synthesize four
+/// different label sequences on one never-used engine (different labels in flight at once: slot
+/// collisions in shared caches, take-overs inside another thread's lookup); each result must equal the
+/// one a separately built twin engine gives sequentially afterwards.
+fn scenario_g() {
+    let e = Arc::new(engine(0.0));
+    let utts: [Vec<&'static str>; 4] = [vec![LABELS[0]], vec![LABELS[1]], vec![LABELS[0], LABELS[1]], vec![LABELS[1], LABELS[0]]];
+    let barrier = Arc::new(std::sync::Barrier::new(4));
+    let hs: Vec<_> = utts
+        .iter()
+        .cloned()
+        .map(|u| {
+            let e = e.clone();
+            let b = barrier.clone();
+            std::thread::spawn(move || {
+                b.wait();
+                let first = e.synthesize(&u[..]).unwrap();
+                let second = e.synthesize(&u[..]).unwrap();
+                (first, second)
+            })
+        })
+        .collect();
+    let outs: Vec<(Vec<f64>, Vec<f64>)> = hs.into_iter().map(|h| h.join().unwrap()).collect();
+    let twin = engine(0.0);
+    for (i, (u, (first, second))) in utts.iter().zip(outs.iter()).enumerate() {
+        let reference = twin.synthesize(&u[..]).unwrap();
+        assert_eq!(bits(first), bits(&reference), "C03: thread {}: first concurrent call on a never-used engine differs from a separately built engine", i);
+        assert_eq!(bits(second), bits(&reference), "C03: thread {}: repeated call differs from a separately built engine", i);
+        let again = e.synthesize(&u[..]).unwrap();
+        assert_eq!(bits(&again), bits(&reference), "C03: utterance {}: a call on the shared engine after the concurrent phase differs from a separately built engine", i);
+    }
+}
+
 fn main() {
     let which = std::env::args().nth(1).unwrap_or_else(|| "A".into());
     match which.as_str() {
@@ -290,6 +323,7 @@ fn main() {
         "E" => scenario_e(),
         "F" => scenario_f(std::env::args().nth(2).and_then(|x| u64::from_str_radix(&x, 16).ok())),
         "R" => scenario_r(),
+        "G" => scenario_g(),
         _ => panic!("unknown scenario"),
     }
     println!("scenario {} ok", which);
